@@ -340,6 +340,7 @@ def insertStr (x : String) : List String → List String
 inductive SOp where
   | hold (k : Nat)
   | release (k : Nat)
+  | boom (k : Nat)      -- the next callback of k panics: recovered by RunSafe / GoSafe / the task runner, nothing else changes
   | calls (cs : List Call) (res : List String) (sortRq : Bool) (cache' : CacheL)
 
 def parseFetch (s : String) : Option (Fetch × String) :=
@@ -350,6 +351,7 @@ def parseFetch (s : String) : Option (Fetch × String) :=
 def parseSched (isCache : Bool) (c : CacheL) : List String → Option SOp
   | ["hold", k] => k.toNat?.map .hold
   | ["release", k] => k.toNat?.map .release
+  | ["boom", k, kind] => if kind = "err" ∨ kind = "str" then k.toNat?.map .boom else none
   | ["tick"] => some (.calls [.tick] [] true c)
   | op =>
     if isCache then
@@ -417,6 +419,7 @@ def schedStep {T : Type} (ts : TStep T) (isCache : Bool) (a : ApiG T) (st : Sche
   | .hold k =>
     if st.active.isEmpty then (a, { st with armed := if st.armed.contains k then st.armed else st.armed ++ [k] }, "armed", [])
     else (a, st, "busy", [])
+  | .boom _ => (a, st, "armed", [])
   | .release k =>
     schedCalls ts isCache a { st with armed := st.armed.filter (· ≠ k), active := st.active.filter (· ≠ k) } [] [] true st.cache
   | .calls cs res sortRq cache' => schedCalls ts isCache a st cs res sortRq cache'
@@ -428,6 +431,7 @@ def schedCover (isCache : Bool) (st : SchedSt) (op : List String) (sop : SOp) (f
     | _ => false
   (match sop with
    | .hold _ => [if st.active.isEmpty then "sched-hold-armed" else "sched-hold-while-held"]
+   | .boom _ => ["sched-callback-panics-" ++ op.getD 2 ""]
    | .release k =>
      (if st.active.contains k then ["sched-release-held"] else if st.armed.contains k then ["sched-release-armed-not-reached"] else ["sched-release-idle"]) ++
      (if st.active.contains k ∧ after.active.isEmpty ∧ st.acc.length ≥ 2 then ["sched-release-prints-2+"] else [])
@@ -464,6 +468,7 @@ def runSched (r : Report) (s : Section) : Report := Id.run do
   let n := kvNat s.cfg "n" 1
   let interval := kvNat s.cfg "interval" 1
   let limit := (kvStr s.cfg "limit" "0").toInt?.getD 0
+  let hasLimitOpt := (kvStr s.cfg "limit" "absent") ≠ "absent"
   let c0 := CacheL.init limit ((kvStr s.cfg "expire" "0").toInt?.getD 0)
   let mut a : Api := Api.init interval n
   let mut sp : Spec.Api := Spec.Api.init interval
@@ -472,7 +477,9 @@ def runSched (r : Report) (s : Section) : Report := Id.run do
   let mut lastEv : Option Nat := none
   let pri := (kvStr s.cfg "pri" "").splitOn ","
   let mut r := r.addCover (if isCache then "mode-sched-cache" else "mode-sched-wheel")
-  if isCache then r := r.addCover (if limit > 0 then s!"cache-limit-{limit}" else if limit < 0 then "cache-limit-negative" else "cache-no-limit")
+  if isCache then r := r.addCover (if limit > 0 then s!"cache-limit-{limit}" else if limit < 0 then "cache-WithLimit-negative"
+    else if hasLimitOpt then "cache-WithLimit-0" else "cache-no-WithLimit")
+  if isCache ∧ kvStr s.cfg "name" "" ≠ "" then r := r.addCover "cache-WithName"
   r := r.addCover (if pri.idxOf "set" < pri.idxOf "remove" then "sched-pri-set-before-remove" else "sched-pri-remove-before-set")
   for l in s.lines do
     match parseSched isCache st.cache l.op, parseSched isCache stS.cache l.op with
